@@ -11,8 +11,12 @@ Tie to /repo, every run:
      of the modelled `deprecated` builders (Jinja ASTs of all templates, classified in Lean by `sinkOk`).
   K1 function level: the registered Jinja filter `comment` of every generator (+ `indent`), and the three
      `deprecated` builders, against the model on strings over the adversarial alphabet — exact strings.
+     Besides random texts, a seed-independent grid: runs of 1..6 backslashes x every continuation a compiler gives a
+     meaning to (`u002a/`, `u000a`, `uuu002a/`, a malformed escape, end of line [+ white space], `*/`, `"`) x position,
+     for the comment filter of every generator and for the deprecation builders.
   K2 file level: a closed-world program generated for all targets without comments and with adversarial comments
-     on every commentable construct; token streams (own tokenizer `ctok12`, cross-checked against the Lean fragment)
+     on every commentable construct (incl. the rotation programs: every construct of the full program carries every
+     IDL spelling of a backslash run 1..6 before `u002a/` / `u000a`, in ordinary text and in code spans); token streams (own tokenizer `ctok12`, cross-checked against the Lean fragment)
      must be equal after dropping comments and deprecation annotations; every deprecation literal decodes to a message
      of the AST. Compilers as judges: g++ -fsyntax-only / javac on the commented variant (corpus witnesses + 2 programs in
      the quick tier, 40 in the thorough tier); g++ -E / javac as judges of the lexing fragment itself (every run).
@@ -96,6 +100,38 @@ def idl_line(r: random.Random) -> str:
     n = r.choice([1, 1, 2, 3, 5, 7])
     s = "".join(r.choice([p for p in PIECES if p not in NO_IDL]) for _ in range(n))
     return s.replace("\n", " ").replace("\r", " ")
+
+
+BS = "\\"
+# what can follow a run of backslashes and be given a meaning by a compiler *before* / *while* it recognises the comment
+# or literal: javac translates `\\uXXXX` iff the run before `u` is odd (JLS 3.3; `*`+`/`, a line feed, a backslash, a
+# malformed escape), the C family splices lines at backslash [white space] newline whatever precedes the backslash
+AFTER_RUN_COMMENT = ["u002a/ int injected; /*", "u000a int injected;", "u002a" + BS + "u002f int injected; /*", "uuu002a/ x", "u005cu002a/", "users", "u", "u00",
+                     "", " ", " \t", "\nnext line", "\r\nnext line", "\x0cnext", "*/ int injected; /*", "n", '"']
+AFTER_RUN_MESSAGE = ["", '"', "n", "u0022 + x + " + BS + "u0022", "u000a", " ", "\n", "\r", "0", "x", '");int injected;("']
+RUN_CONTEXTS = [("", ""), ("C:", " tail\nlast line")]
+RUN_LENGTHS = range(1, 7)
+
+
+def run_grid_comments():
+    """every run length 1..6 x every continuation x position in the text (seed-independent)"""
+    return [pre + BS * m + a + post for m in RUN_LENGTHS for a in AFTER_RUN_COMMENT for pre, post in RUN_CONTEXTS]
+
+
+def run_grid_messages():
+    return [pre + BS * m + a for m in RUN_LENGTHS for a in AFTER_RUN_MESSAGE for pre in ("", "use ")]
+
+
+def idl_run_variants():
+    """IDL spellings of documentation lines with a backslash run before `u002a/` resp. `u000a`: Markdown halves a run in
+    ordinary text (IDL runs 1..12 render to runs 1..6 of both parities) and keeps it verbatim in a code span (1..6)."""
+    out = []
+    for payload in ("u002a/ int injected; /*", "u000a int injected;"):
+        for m in range(1, 13):
+            out.append("x " + BS * m + payload)
+        for m in range(1, 7):
+            out.append("code `" + BS * m + payload + "` span")
+    return out
 
 
 # ---------------------------------------------------------------------------------------------------------
@@ -249,6 +285,15 @@ def py_sink_ok(s) -> bool:
     return False
 
 
+def report(ctx, key, what, replay_body):
+    """at most four replays per failure shape (the runner keeps 25 replay files per run), so that one defect seen by the
+    function-level grid does not crowd out the file-level witnesses; every hit is counted in stats['violation_hits']"""
+    hits = ctx.stats.setdefault("violation_hits", {})
+    hits[key] = hits.get(key, 0) + 1
+    if hits[key] <= 4:
+        ctx.report(key, what, replay_body)
+
+
 # ---------------------------------------------------------------------------------------------------------
 # K1: function level
 # ---------------------------------------------------------------------------------------------------------
@@ -286,9 +331,18 @@ def function_level(ctx, gens, corpus):
         elif c.get("kind") == "deprecated":
             for t in ("cpp", "objc", "cppcli"):
                 cases.append(("deprecated", t, c["dep"], c.get("pre", ""), c.get("post", " ")))
+    for k, t in enumerate(run_grid_comments()):
+        for g in gens:
+            cases.append(("filter", g, t, [None, 4][k % 2]))
+    for k, t in enumerate(run_grid_messages()):
+        for tg in ("cpp", "objc", "cppcli"):
+            cases.append(("deprecated", tg, t, ["", " "][k % 2], " "))
     for i in range(n):
         r = random.Random(f"{ctx.seed}/c12/f/{i}")
         t = text(r, cr=True)
+        if i % 5 == 4:        # a run of backslashes spliced into a random text
+            cut = r.randrange(len(t) + 1)
+            t = t[:cut] + BS * r.choice(list(RUN_LENGTHS)) + r.choice(AFTER_RUN_COMMENT) + t[cut:]
         g = gens[i % len(gens)]
         cases.append(("filter", g, t, r.choice([None, None, 4, 8, 1])))
     for i in range(ctx.n(150, 3000)):
@@ -340,7 +394,7 @@ def function_level(ctx, gens, corpus):
         elif kind == "filter.spec":
             _, g, t, ind = c
             if not a["holds"]:
-                ctx.report(f"comment:{style_name(g)}:{m[3]}:{cause_of(t, style_name(g), m[3], ind)}",
+                report(ctx, f"comment:{style_name(g)}:{m[3]}:{cause_of(t, style_name(g), m[3], ind)}",
                            "comment text escapes the generated documentation comment",
                            {"input": {"kind": "filter", "generator": g.key, "text": t, "indent": ind, "probe": m[4], "lang": m[3]},
                             "impl_output": out, "tokens": a.get("tokens")})
@@ -354,7 +408,7 @@ def function_level(ctx, gens, corpus):
         elif kind == "dep.spec":
             _, target, dep, pre, post = c
             if not a["holds"]:
-                ctx.report(f"deprecated:{target}:{dep_cause(dep)}",
+                report(ctx, f"deprecated:{target}:{dep_cause(dep)}",
                            "deprecation message does not stay one well-formed string literal that decodes to the message",
                            {"input": {"kind": "deprecated", "target": target, "dep": dep, "pre": pre if target == "cpp" else "",
                                       "post": post if target == "cpp" else ""},
@@ -461,6 +515,42 @@ def program(r: random.Random, mode: str) -> tuple[str, str]:
     return "".join(bare), "".join(commented)
 
 
+def rotation_programs(nprog: int):
+    """The full closed-world program (every declaration of `DECLS`), every commentable construct commented; over the
+    `nprog` programs every construct carries every line of `idl_run_variants()` once (36 / nprog lines per comment), plus
+    a rotating tag line (@deprecated / @param / @returns / @throws) with such a text. Seed-independent."""
+    variants = idl_run_variants()
+    per = max(1, len(variants) // nprog)
+    out = []
+    for k in range(nprog):
+        bare, commented, sidx = [], [], 0
+        for name, deps, tmpl in DECLS:
+            b = c = tmpl
+            for slot in ("{C}", "{C1}", "{C2}", "{C3}", "{C4}"):
+                if slot not in tmpl:
+                    continue
+                m = re.search(r"^" + re.escape(slot) + r"( *)", c, flags=re.M)
+                indent = m.group(1) if m else ""
+                lines = [variants[(sidx + k * per + j) % len(variants)] for j in range(per)]
+                tagtext = variants[(sidx + 7 * k + 3) % len(variants)]
+                tag = (sidx + k) % 5
+                if tag == 0:
+                    lines.append("@deprecated " + tagtext)
+                elif tag == 1 and name in PARAMS:
+                    lines.append("@param " + PARAMS[name][(sidx + k) % len(PARAMS[name])] + " " + tagtext)
+                elif tag == 2:
+                    lines.append("@returns " + tagtext)
+                elif tag == 3:
+                    lines.append("@throws err " + tagtext)
+                b = b.replace(slot, "")
+                c = c.replace(slot, "".join(f"{indent}# {l}\n" for l in lines))
+                sidx += 1
+            bare.append(b)
+            commented.append(c)
+        out.append(("".join(bare), "".join(commented)))
+    return out
+
+
 def file_lang(path: str):
     if path.endswith(".java"):
         return "java"
@@ -495,6 +585,11 @@ def file_level(ctx, corpus):
             jobs.append({"files": {"main.djinni": c["bare"]}, "root": "main.djinni"})
             jobs.append({"files": {"main.djinni": c["commented"]}, "root": "main.djinni", "want": ["dep"]})
             metas.append({"mode": "corpus", "bare": c["bare"], "commented": c["commented"], "judge": bool(c.get("judge"))})
+    if n:
+        for bare, commented in rotation_programs(ctx.n(12, 36)):
+            jobs.append({"files": {"main.djinni": bare}, "root": "main.djinni"})
+            jobs.append({"files": {"main.djinni": commented}, "root": "main.djinni", "want": ["dep"]})
+            metas.append({"mode": "runs", "bare": bare, "commented": commented})
     for i in range(n):
         r = random.Random(f"{ctx.seed}/c12/p/{i}")
         mode = "plain" if i % 4 == 0 else "adv"
@@ -502,7 +597,15 @@ def file_level(ctx, corpus):
         jobs.append({"files": {"main.djinni": bare}, "root": "main.djinni"})
         jobs.append({"files": {"main.djinni": commented}, "root": "main.djinni", "want": ["dep"]})
         metas.append({"mode": mode, "bare": bare, "commented": commented})
-    results = genrun.run_many(ctx.tmp / "gen", jobs, timeout=60)
+    # identical inputs (the comment-free variant of the rotation programs) are generated once
+    uniq, index = [], {}
+    for j in jobs:
+        key = json.dumps(j, sort_keys=True)
+        if key not in index:
+            index[key] = len(uniq)
+            uniq.append(j)
+    uresults = genrun.run_many(ctx.tmp / "gen", uniq, timeout=60)
+    results = [uresults[index[json.dumps(j, sort_keys=True)]] for j in jobs]
     lexreqs, lexmeta = [], []
     judged = []
     for k, meta in enumerate(metas):
@@ -512,7 +615,7 @@ def file_level(ctx, corpus):
             raise common.Infra(f"closed-world program without comments is not accepted/generated: {r0} \n{meta['bare']}")
         if not r1["ok"]:
             ctx.count(key=("program", meta["mode"], "fails"), sample={"stage": r1["stage"]})
-            ctx.report("program:generation-fails:" + r1["stage"] + ":" + r1["cls"],
+            report(ctx, "program:generation-fails:" + r1["stage"] + ":" + r1["cls"],
                        "adding comments makes generation fail", {"input": inp, "impl": r1})
             continue
         f0, f1 = r0["files"], r1["files"]
@@ -555,7 +658,7 @@ def file_level(ctx, corpus):
         ctx.stat("programs_" + meta["mode"])
         if differing:
             targets = sorted({d["file"].split("/")[0] for d in differing})
-            ctx.report("program:" + program_cause(meta["commented"], differing) + ":" + "+".join(targets),
+            report(ctx, "program:" + program_cause(meta["commented"], differing) + ":" + "+".join(targets),
                        "comments change generated code (not only documentation / deprecation annotations)",
                        {"input": inp, "differing": differing[:8]})
         else:
@@ -711,7 +814,8 @@ def load_corpus():
 
 def run(ctx):
     ctx.coverage["rule"] = ("function level: distinct = (style, indented?, set of adversarial features in the text) resp. (builder, value kind, features); "
-                            "file level: distinct = (mode, targets with deprecation literals, features of the comments); non-trivial = non-empty text / a program whose commented variant differs")
+                            "function level also: grid of backslash runs 1..6 x continuations (unicode escapes, line ends, closers, quotes) x position for every generator / builder; "
+                            "file level: distinct = (mode, targets with deprecation literals, features of the comments); 12 (36) rotation programs put every backslash-run spelling on every commentable construct; non-trivial = non-empty text / a program whose commented variant differs")
     ctx.assumptions += [
         "no assumption on the rendered comment text or the deprecation message: the theorems hold for every string (the comment filter splits at '\\r' and every other line boundary, string_literal escapes them)",
         "closed feature set of the file-level generator: the eight declarations of `DECLS` (enum, flags with none/all last, record of i32/string/list<i32>/enum, "
